@@ -234,6 +234,8 @@ def run(ctx):
 
 
 SWEEP = ["concurrent/test_execution_queue.cpp"]
+DEPENDS = {"C01": "the execution queue hands every item through ConcurrentBoundedQueue push / try_pop: a lost or doubled element there is a lost or doubled item here",
+           "C02": "producers block in the queue's push when it is full and rely on the consumer's pop to wake them"}
 
 
 # name anchors (validated by tools/rename_sweep.py; a vanished name is exit 2, see core.check_anchor_names)
